@@ -86,6 +86,8 @@ def classify(st, dialect, res):
             return "F-C01-subquery-in-having"
         if ("where:in" in f or "where:and" in f) and ("from:comma" in f or "from:join_comma" in f or "from:comma_join" in f):
             return "F-C01-comma-join-inside-in-subquery"
+        if "kind:update" in f and st.get("where") and ("from:comma" in f or "from:join_comma" in f or "from:comma_join" in f):
+            return "F-C01-comma-join-inside-in-subquery"
         if "from:nested_paren" in f and "rel:derived" in f:
             return "F-C01-derived-table-in-parenthesised-join"
         if "kind:update" in f and any(x.startswith("where:") for x in f):
@@ -107,10 +109,12 @@ def run(tier: str, opts: dict) -> int:
         for d in dialects:
             if st["kind"] == "select_into" and d not in SELECT_INTO_OK:
                 continue  # SELECT ... INTO x assigns a variable in the mysql family: not a data-moving form there
+            if tier != "quick" and ndev >= 3 and d not in QUICK_DIALECTS and "dialects" not in opts:
+                continue  # thorough: the outermost ball under the 7 grammar families, the D<=2 ball under all 28 dialects
             tasks.append((st, d))
     res = pmap(_eval, tasks, chunk=16)
     regen = opts.get("regen_pins")
-    ansi_ok = {id(st): bool(r.get("ok")) for (st, d), r in zip(tasks, res) if d == "ansi"}
+    ansi_res = {id(st): r for (st, d), r in zip(tasks, res) if d == "ansi" and not r.get("skip")}
     new_pins = {}
     unclassified = []
     per_dialect = {}
@@ -137,8 +141,12 @@ def run(tier: str, opts: dict) -> int:
         dg = common.digest(r["obs"])
         if regen:
             fid = classify(st, d, r)
-            if fid is None and d != "ansi" and ansi_ok.get(id(st)):
-                fid = f"F-C09-{d}-deviates"  # ansi agrees with the reference for this statement, this dialect does not
+            if fid is None and d != "ansi" and id(st) in ansi_res:
+                ar = ansi_res[id(st)]
+                if ar.get("ok") or r.get("obs") != ar.get("obs"):
+                    fid = f"F-C09-{d}-deviates"  # this dialect's answer differs from ansi's (which may itself be a listed finding)
+                else:
+                    fid = classify(st, "ansi", ar)  # the same wrong answer as under ansi
             if fid is None:
                 unclassified.append((key, r))
             else:
